@@ -287,6 +287,55 @@ pub fn run(ctx: &Ctx, rep: &Report) {
         });
         rep.part("crc:112bit-16bit-windows-every-offset", 97 * 65536 * 2, json!({}));
     }
+    // (c') the (buffer, bit count) contract: the demodulator hands over its whole buffer with the length of the frame it
+    // hopes for, so the buffer may be longer than the frame - the bytes after the frame are not part of it; a bit count that
+    // is not a multiple of 8 denotes the whole bytes below it
+    {
+        let mut n = 0u64;
+        let mut rng = Rng(0xc02b);
+        let mut frames: Vec<Vec<u8>> = base_frames();
+        for _ in 0..400 {
+            let l = if rng.next() & 1 == 0 { 7 } else { 14 };
+            frames.push((0..l).map(|_| rng.next() as u8).collect());
+        }
+        for f in &frames {
+            for nb in [7usize, 14] {
+                if f.len() < nb {
+                    continue;
+                }
+                let want = ref_remainder(&f[..nb]);
+                for (extra, fill) in [(0usize, 0u8), (1, 0x00), (1, 0xff), (7, 0x00), (7, 0xa5), (9, 0xff), (50, 0x5a)] {
+                    let mut buf = f[..nb].to_vec();
+                    buf.extend(std::iter::repeat(fill).take(extra));
+                    if extra > 0 && f.len() > nb {
+                        // also: the real continuation of a longer frame
+                        buf = f.clone();
+                        buf.extend(std::iter::repeat(fill).take(extra));
+                    }
+                    for slack in [0usize, 1, 7] {
+                        let bits = nb * 8 + slack;
+                        if slack > 0 && buf.len() * 8 < bits {
+                            continue;
+                        }
+                        n += 1;
+                        set_case_bytes(2, &buf);
+                        let got = guarded(|| modes_checksum(&buf, bits));
+                        let bad = match &got {
+                            Err(p) => Some(("crc:buffer:panic".to_string(), format!("panicked: {p}"))),
+                            Ok(Err(e)) => Some(("crc:buffer:fails".to_string(), format!("error: {e}"))),
+                            Ok(Ok(v)) if *v != want => Some(("crc:buffer:value".to_string(), format!("= {v:06x}, the remainder of the {nb}-byte frame is {want:06x}"))),
+                            _ => None,
+                        };
+                        if let Some((c, w)) = bad {
+                            rep.violation(&c, format!("modes_checksum({}, {bits}) on a {}-byte buffer {w}", hexs(&buf), buf.len()), json!({"kind":"crc-buffer","frame":hexs(&buf),"bits":bits,"nb":nb}));
+                        }
+                    }
+                }
+            }
+        }
+        rep.eval(n);
+        rep.part("crc:(buffer, bit count) contract - buffers longer than the frame, bit counts off the byte grid", n, json!({"frames": frames.len()}));
+    }
     // (d) error patterns have a non-zero syndrome (1 bit, 2 bits, bursts <= 24)
     {
         let maxlen = 24;
@@ -608,6 +657,16 @@ pub fn replay(w: &Value, rep: &Report) {
         Some("crc") => {
             if let Some((c, what)) = check_crc(&f, ref_remainder(&f)) {
                 rep.violation(&c, what, w.clone());
+            }
+        }
+        Some("crc-buffer") => {
+            let bits = w["bits"].as_u64().unwrap_or(0) as usize;
+            let nb = w["nb"].as_u64().unwrap_or(0) as usize;
+            match guarded(|| modes_checksum(&f, bits)) {
+                Err(p) => rep.violation("crc:buffer:panic", format!("modes_checksum({}, {bits}) panicked: {p}", hexs(&f)), w.clone()),
+                Ok(Err(e)) if nb > 0 => rep.violation("crc:buffer:fails", format!("modes_checksum({}, {bits}) error: {e}", hexs(&f)), w.clone()),
+                Ok(Ok(v)) if v != ref_remainder(&f[..nb]) => rep.violation("crc:buffer:value", format!("modes_checksum({}, {bits}) = {v:06x}, the remainder of the {nb}-byte frame is {:06x}", hexs(&f), ref_remainder(&f[..nb])), w.clone()),
+                _ => {}
             }
         }
         Some("pattern") => match impl_crc(&f) {
